@@ -75,7 +75,83 @@ def TABLES():
     out.append('def stderrChannel : List UInt8 := %s' % lean_bytes(events.ProcessLogStderrEvent.channel.encode()))
     out.append('def commStdoutChannel : List UInt8 := %s' % lean_bytes(events.ProcessCommunicationStdoutEvent.channel.encode()))
     out.append('def commStderrChannel : List UInt8 := %s' % lean_bytes(events.ProcessCommunicationStderrEvent.channel.encode()))
+    out += _read_size()
+    out += _decode_sites()
     return out
+
+
+def _read_size():
+    """ServerOptions.readfd: the size handed to os.read (finish() -> drain() reads every dispatcher once, so this bounds what
+    can be recovered from a pipe at reap time)"""
+    out = ['-- supervisor/options.py ServerOptions.readfd: the size argument of its os.read call']
+    try:
+        f = _func('supervisor/options.py', 'ServerOptions.readfd')
+        calls = [n for n in ast.walk(f) if isinstance(n, ast.Call) and ast.unparse(n.func) == 'os.read']
+        if len(calls) != 1 or len(calls[0].args) != 2:
+            raise Untranslatable('%d os.read calls' % len(calls))
+        v = eval(compile(ast.Expression(calls[0].args[1]), '<readfd>', 'eval'), {'__builtins__': {}}, {})
+        if not isinstance(v, int) or isinstance(v, bool) or v < 0:
+            raise Untranslatable('size %r' % (v,))
+        out.append('def readfdSize : Nat := %d' % v)
+    except Exception as e:
+        out.append('-- readfdSize  UNTRANSLATED (%s)' % e)
+    return out
+
+
+def _handler_names(h):
+    if h.type is None:
+        return ['BaseException']
+    if isinstance(h.type, ast.Tuple):
+        return [ast.unparse(x).split('.')[-1] for x in h.type.elts]
+    return [ast.unparse(h.type).split('.')[-1]]
+
+
+def decode_sites(func):
+    """every strict conversion of bytes to text in `func` -- x.decode(...) without errors='replace'/'ignore', as_string(x),
+    str(x, enc) -- with the exception classes of the handlers of the try statements whose *body* encloses it (innermost first)"""
+    found = []
+    def walk(node, handlers):
+        if isinstance(node, ast.Try):
+            mine = [n for h in node.handlers for n in _handler_names(h)]
+            for st in node.body:
+                walk(st, mine + handlers)
+            for part in [h.body for h in node.handlers] + [node.orelse, node.finalbody]:
+                for st in part:
+                    walk(st, handlers)
+            return
+        if isinstance(node, ast.Call):
+            f = node.func
+            lenient = any(isinstance(a, ast.Constant) and a.value in ('replace', 'ignore', 'backslashreplace', 'surrogateescape')
+                          for a in list(node.args[1:]) + [k.value for k in node.keywords])
+            is_dec = (isinstance(f, ast.Attribute) and f.attr == 'decode') or \
+                     (isinstance(f, ast.Name) and f.id == 'as_string') or \
+                     (isinstance(f, ast.Name) and f.id == 'str' and len(node.args) >= 2)
+            arg = f.value if isinstance(f, ast.Attribute) else (node.args[0] if node.args else None)
+            static_text = arg is None or (isinstance(arg, ast.Constant) and isinstance(arg.value, str)) or \
+                ast.unparse(arg).endswith('config.name')
+            if is_dec and not lenient and not static_text:
+                found.append((ast.unparse(node), handlers))
+        for ch in ast.iter_child_nodes(node):
+            walk(ch, handlers)
+    for st in func.body:
+        walk(st, [])
+    return found
+
+
+def _decode_sites():
+    out = ['-- POutputDispatcher._log: strict conversions of child output to text, each with the exception classes handled around it']
+    try:
+        f = _func('supervisor/dispatchers.py', 'POutputDispatcher._log')
+        sites = decode_sites(f)
+        out.append('def logDecodeSites : List (String × List String) := [%s]' % ', '.join(
+            '(%s, [%s])' % (_lean_str(src), ', '.join(_lean_str(h) for h in hs)) for src, hs in sites))
+    except Exception as e:
+        out.append('-- logDecodeSites  UNTRANSLATED (%s)' % e)
+    return out
+
+
+def _lean_str(t):
+    return '"' + t.replace('\\', '\\\\').replace('"', '\\"').replace('\n', '\\n') + '"'
 
 
 def _func(file, qual):
